@@ -575,7 +575,17 @@ impl Stats {
 // ------------------------------------------------------------------------------------------
 // shrinking
 
+thread_local! {
+    /// while an ordinary failing case is being shrunk, candidates that happen to be medium cases
+    /// (the class is decided by the first word, which shrinking changes) are not executed: they
+    /// are not simpler, and under a defect they can cost minutes or exhaust the memory
+    static SHRINK_ALLOW_MEDIUM: std::cell::Cell<bool> = const { std::cell::Cell::new(true) };
+}
+
 fn still_fails(prop: &Prop, tier: Tier, known: &[Known], words: &[u32]) -> Option<Violation> {
+    if !SHRINK_ALLOW_MEDIUM.with(|c| c.get()) && crate::tape::is_medium(words) {
+        return None;
+    }
     let mut ctx = Ctx::new(tier, false);
     match run_case(prop, words, &mut ctx) {
         CaseOutcome::Violation(v) => {
@@ -693,6 +703,7 @@ fn polish(
 /// re-check a tape found elsewhere (fuzzer artifact); if it fails, shrink it with the own pass
 pub fn shrink_failing_tape(prop: &Prop, tier: Tier, known: &[Known], words: Vec<u32>, origin: &str) -> Option<Failure> {
     // fuzzer tapes were generated with thorough sizes
+    SHRINK_ALLOW_MEDIUM.with(|c| c.set(crate::tape::is_medium(&words)));
     for t in [tier, Tier::Thorough, Tier::Quick] {
         if let Some(v) = still_fails(prop, t, known, &words) {
             let cost = {
@@ -725,6 +736,21 @@ fn seed_bytes(seed: u64, prop: &str, worker: u64, tier: Tier) -> [u8; 32] {
     out
 }
 
+/// shared by the workers of one run: medium-size cases are deferred until every worker has
+/// finished its ordinary cases, and are skipped if any of them found a violation.  A defect
+/// that small inputs show is then reported from a small input (cheap to run, cheap to shrink)
+/// before a medium case can turn the same defect into minutes of work or an exhausted memory.
+pub struct Gate {
+    pub barrier: std::sync::Barrier,
+    pub failed: std::sync::atomic::AtomicBool,
+}
+
+impl Gate {
+    pub fn new(workers: usize) -> Gate {
+        Gate { barrier: std::sync::Barrier::new(workers.max(1)), failed: std::sync::atomic::AtomicBool::new(false) }
+    }
+}
+
 pub fn run_worker(
     prop: &Prop,
     tier: Tier,
@@ -732,7 +758,9 @@ pub fn run_worker(
     worker: u64,
     cases: u64,
     known: &[Known],
+    gate: &Gate,
 ) -> Stats {
+    use std::sync::atomic::Ordering;
     let max_tape = match tier {
         Tier::Quick => prop.max_tape.0,
         Tier::Thorough => prop.max_tape.1,
@@ -745,31 +773,30 @@ pub fn run_worker(
     let mut runner = TestRunner::new_with_rng(config, rng);
     let strategy = proptest::collection::vec(proptest::num::u32::ANY, 0..=max_tape);
     let mut stats = Stats::default();
+    let mut deferred = Vec::new();
 
-    for _ in 0..cases {
-        let mut tree = match strategy.new_tree(&mut runner) {
-            Ok(t) => t,
-            Err(e) => {
-                stats.harness_error = Some(format!("proptest could not generate a tape: {e}"));
-                break;
-            }
-        };
+    // one case: true = go on, false = stop this worker
+    let one = |tree: &mut dyn ValueTree<Value = Vec<u32>>, stats: &mut Stats| -> bool {
         let words = tree.current();
         let mut ctx = Ctx::new(tier, worker == 0 && stats.samples.len() < 3);
         match run_case(prop, &words, &mut ctx) {
-            CaseOutcome::Pass => stats.absorb(&mut ctx),
+            CaseOutcome::Pass => {
+                stats.absorb(&mut ctx);
+                true
+            }
             CaseOutcome::HarnessError(e) => {
                 stats.evaluations += 1;
                 stats.harness_error = Some(format!("{e}\ntape: {}", tape_to_string(&words)));
-                break;
+                false
             }
             CaseOutcome::Violation(v) => {
                 stats.evaluations += 1;
                 if let Some(k) = match_known(known, prop.id, &v) {
                     *stats.known_hits.entry(k.signature.clone()).or_default() += 1;
-                    continue;
+                    return true;
                 }
                 // shrink with proptest's value tree (bounded number of re-executions)
+                SHRINK_ALLOW_MEDIUM.with(|c| c.set(crate::tape::is_medium(&words)));
                 let mut best_words = words.clone();
                 let mut best = v;
                 let allowance = shrink_budget(ctx.consumed);
@@ -805,6 +832,34 @@ pub fn run_worker(
                     dump: v.dump,
                     origin: format!("generated (worker {worker})"),
                 });
+                false
+            }
+        }
+    };
+
+    for _ in 0..cases {
+        let mut tree = match strategy.new_tree(&mut runner) {
+            Ok(t) => t,
+            Err(e) => {
+                stats.harness_error = Some(format!("proptest could not generate a tape: {e}"));
+                break;
+            }
+        };
+        if crate::tape::is_medium(&tree.current()) {
+            deferred.push(tree);
+            continue;
+        }
+        if !one(&mut tree, &mut stats) {
+            break;
+        }
+    }
+    if stats.failure.is_some() || stats.harness_error.is_some() {
+        gate.failed.store(true, Ordering::SeqCst);
+    }
+    gate.barrier.wait();
+    if !gate.failed.load(Ordering::SeqCst) {
+        for mut tree in deferred {
+            if !one(&mut tree, &mut stats) {
                 break;
             }
         }
@@ -881,6 +936,8 @@ pub struct RunConfig {
 pub fn run_generated(prop: &'static Prop, cfg: &RunConfig, known: &[Known]) -> Stats {
     let per = cfg.cases / cfg.workers.max(1);
     let mut total = Stats::default();
+    let gate = Gate::new(cfg.workers as usize);
+    let gate = &gate;
     let results: Vec<Stats> = std::thread::scope(|s| {
         let handles: Vec<_> = (0..cfg.workers)
             .map(|w| {
@@ -890,7 +947,7 @@ pub fn run_generated(prop: &'static Prop, cfg: &RunConfig, known: &[Known]) -> S
                 let off = cfg.worker_offset;
                 std::thread::Builder::new()
                     .stack_size(64 << 20)
-                    .spawn_scoped(s, move || run_worker(prop, tier, seed, w + off, per, &known))
+                    .spawn_scoped(s, move || run_worker(prop, tier, seed, w + off, per, &known, gate))
                     .expect("spawn worker")
             })
             .collect();
